@@ -261,6 +261,22 @@ m("c14_zero_step", "C14", r"C14\.ZERO:slice:step-nonzero", "zero step check remo
 """, "")
 m("c14_arith_guard", "C14", r"C14\.ARITH:value::resolve_index", "negative-index normalisation without the sign test",
   "tera/src/value/mod.rs", "let normalized = if idx < 0 { idx + len as i128 } else { idx };", "let normalized = if idx != 0 { idx + len as i128 } else { idx };")
+# ---------------------------------------------------------------- C12
+m("c12_src_entry_template", "C12", r"C12\.SRC:report_target", "report_target always names the entry template",
+  "tera/src/vm/interpreter.rs", """        if self.template.name != chunk.name {
+            let tpl = &self.tera.templates[&chunk.name];
+            (&tpl.name, &tpl.source)""", """        if self.template.name != chunk.name {
+            let tpl = &self.tera.templates[&chunk.name];
+            (&self.template.name, &tpl.source)""")
+m("c12_chunkname_block", "C12", r"C12\.CHUNKNAME:.*compile_block", "block chunks named after the block instead of the template",
+  "tera/src/parsing/compiler.rs", "let parent_chunk = std::mem::replace(&mut self.chunk, Chunk::new(&chunk_name));",
+  "let parent_chunk = std::mem::replace(&mut self.chunk, Chunk::new(&block_name));")
+m("c12_setsrc_dropped", "C12", r"C12\.SETSRC:Template::new", "syntax errors returned without their source",
+  "tera/src/template.rs", """                ErrorKind::SyntaxError(mut s) => {
+                    s.set_source(tpl_name, source);""", """                ErrorKind::SyntaxError(mut s) => {
+                    if tpl_name.is_empty() {
+                        s.set_source(tpl_name, source);
+                    }""")
 
 
 def apply(src, old, new, count, name):
